@@ -1,6 +1,7 @@
 import XPathV.Lemmas.Pull2.StepAll
 import XPathV.Lemmas.Pull2.SelFull
 import XPathV.Lemmas.Pull2.Mono
+import XPathV.Lemmas.Pull2.Context
 /-!
 # The extended pull machine refines the sequence model (C12 second half, C02/C04 state reset)
 
@@ -11,7 +12,7 @@ well-formed document only when the configuration contains a non-sibling `followi
 
 * `select_step2` (Pull2/StepAll)  one-pull lemma: from any state satisfying `PQ2.Inv`, `Select`
   returns the head of `rem2 c q` and leaves the tail (compositional per type: `Pull2/Steps.lean`,
-  schemes `closure_step`, `closure_flat`, `fmap_step` in `Pull2/Generic.lean`)
+  schemes `closure_step`, `closure_flat`, `fmap_step`, `fmap_step_fin` in `Pull2/Generic.lean`)
 * `sel_full2` (Pull2/SelFull)     the stream of a reset machine is `sel` of the plan
 * `drain2_eq_sel`, `drain2_refs_eq_sel` (**Q1**)  draining the builder's machine yields `sel`
 * `drain2_complete` (**Q1'**)     from any state satisfying the invariant, draining yields `rem2`
@@ -24,6 +25,8 @@ well-formed document only when the configuration contains a non-sibling `followi
 * `select_mono2`, `select_sound2`, `drain2_sound`  more fuel never changes an answer; any answer
   other than "out of fuel" is the one of the one-pull lemma
 * `Reach`, `reach_inv`            the invariant holds in every state reachable by `Evaluate`/`Clone`/`Select`
+* `select_preserves_context` (Pull2/Context)  no `Select` leaves the context node `t.Current()` moved
+  (no invariant, no hypothesis on the state: by induction on the fuel over `PQ2.select` alone)
 -/
 namespace XPathV.Model
 open XPathV
